@@ -90,7 +90,8 @@ CANARIES = {
         ("comparator-not-mirror", "stix2/equivalence/pattern/compare/comparison.py", "negate-if", ["object_path_cmp", "path1.object_type_name < path2.object_type_name"], "C09.comparator-mirror"),
         ("copy-loses-not", "stix2/equivalence/pattern/transform/comparison.py", "text", ["ast.operator, new_object_path, ast.rhs, ast.negated,", "ast.operator, new_object_path, ast.rhs,"], "C09.copy-complete"),
         ("set-semantics-containment", "stix2/equivalence/pattern/transform/observation.py", "text", ["                    del container[i]\n", "                    pass\n"], "C09.distinct-bindings"),
-        ("regexes-canonicalised-as-values", "stix2/equivalence/pattern/transform/comparison.py", "text", ['        if ast.operator in ("MATCHES", "LIKE"):', '        if False:'], "C09.value-operators-only"),
+        ("regexes-canonicalised-as-values", "stix2/equivalence/pattern/transform/comparison.py", "text", ['        if ast.operator in ("MATCHES", "LIKE", "<", ">", "<=", ">="):', '        if False:'], "C09.value-operators-only"),
+        ("ordered-by-canonical-text", "stix2/equivalence/pattern/transform/comparison.py", "text", ['        if ast.operator in ("MATCHES", "LIKE", "<", ">", "<=", ">="):', '        if ast.operator in ("MATCHES", "LIKE"):'], "C09.value-operators-only"),
         ("wildcard-index-as-string", "stix2/equivalence/pattern/compare/comparison.py", "text", ["                yield ANY_INDEX\n", "                yield comp.index\n"], "C09.type-guard"),
     ],
     "C10": [
